@@ -78,14 +78,16 @@ pub fn mutations(c: &V, out: &mut Vec<(String, V)>, rebuild: &dyn Fn(V) -> V, in
     if !in_leaf { for (n, j) in junk() { out.push((format!("replace-{}-by-{}", kind(c), n), rebuild(j))) } }
     match c {
         V::Array(v) if !in_leaf => {
-            for i in 0..v.len() { for j in (i + 1)..v.len() { let mut w = v.clone(); w.swap(i, j); out.push((format!("array-swap-{}-{}", i.min(1), j.min(1)), rebuild(V::Array(w)))) } }
+            // arrays longer than 12 elements (the wide boundary seeds): adjacent swaps and swaps with the two first / two last elements only
+            let n = v.len(); let near = |i: usize, j: usize| n <= 12 || j == i + 1 || i <= 1 || j + 2 >= n;
+            for i in 0..v.len() { for j in (i + 1)..v.len() { if !near(i, j) { continue } let mut w = v.clone(); w.swap(i, j); out.push((format!("array-swap-{}-{}", i.min(1), j.min(1)), rebuild(V::Array(w)))) } }
             for i in 0..v.len() {
                 let mut w = v.clone(); w.push(v[i].clone()); out.push((format!("array-dup-{}", i.min(1)), rebuild(V::Array(w))));
                 let mut w = v.clone(); w.insert(i, v[i].clone()); out.push((format!("array-dup-adjacent-{}", i.min(1)), rebuild(V::Array(w))));
                 let mut w = v.clone(); w.remove(i); out.push((format!("array-drop-{}-len{}", i.min(1), w.len().min(2)), rebuild(V::Array(w))));
             }
             for (n, j) in junk() { let mut w = v.clone(); w.push(j.clone()); out.push((format!("array-append-{n}"), rebuild(V::Array(w)))); let mut w = v.clone(); w.insert(1.min(v.len()), j); out.push((format!("array-insert-{n}"), rebuild(V::Array(w)))) }
-            for i in 0..v.len() { let vv = v.clone(); let rb = move |x: V| { let mut w = vv.clone(); w[i] = x; V::Array(w) }; mutations(&v[i], out, &|x| rebuild(rb(x)), false) }
+            for i in 0..v.len() { if n > 12 && !(i <= 2 || i == n / 2 || i + 2 >= n) { continue } let vv = v.clone(); let rb = move |x: V| { let mut w = vv.clone(); w[i] = x; V::Array(w) }; mutations(&v[i], out, &|x| rebuild(rb(x)), false) }
         }
         V::Map(m) if !in_leaf => {
             let mut m2 = m.clone(); m2.push((V::Tag(201, Box::new(V::Text("k2".into()))), V::Tag(201, Box::new(V::Text("v2".into()))))); out.push(("map-two-entries".into(), rebuild(V::Map(m2))));
@@ -196,7 +198,7 @@ pub fn seeds(w: usize) -> Vec<(String, Vec<u8>)> {
     ];
     for (n, e) in ex { out.push((n.to_string(), e.to_cbor_data())) }
     // nodes whose array head sits at a width boundary (24 and 25 elements; 256 elements in the heavier families)
-    for (wn, m) in families::wide() { if (w >= 5 && (wn == "node-23-assertions" || wn == "node-24-assertions")) || (w >= 6 && wn == "node-255-assertions") { if let Some(b) = m.encode() { out.push((wn, b)) } } }
+    for (wn, m) in families::wide() { let cnt: usize = wn.strip_prefix("node-").and_then(|x| x.strip_suffix("-assertions")).and_then(|x| x.parse().ok()).unwrap_or(0); if cnt > 0 && (cnt <= 65 || w >= 6) && w >= 4 { if let Some(b) = m.encode() { out.push((wn, b)) } } }
     out
 }
 
@@ -236,7 +238,7 @@ pub fn run(ctx: &Ctx) -> i32 {
             if !seen.insert(mb.clone()) { continue }
             acc.inc("family2_single");
             judge(&mut acc, &mb, class, &|| format!("f2/{n}/m{i}:{class}"));
-            if th || v_small(&v) {
+            if (th && !n.starts_with("node-")) || v_small(&v) {
                 let mut m2 = vec![]; mutations(mv, &mut m2, &|x| x, false);
                 for (j, (c2, mv2)) in m2.iter().enumerate() { let mb2 = dcbor::bytes(mv2); if seen.insert(mb2.clone()) { acc.inc("family2_double"); judge(&mut acc, &mb2, c2, &|| format!("f2/{n}/m{i}:{class}/m{j}:{c2}")) } }
             }
@@ -248,7 +250,8 @@ pub fn run(ctx: &Ctx) -> i32 {
     acc = acc.merge(f2);
     for (class, b) in handwritten() { acc.inc("family2_handwritten"); judge(&mut acc, &b, &class, &|| format!("f2hw/{class}")) }
     // family 3: every single-byte replacement, deletion and insertion
-    let sd3 = seeds(if th { 5 } else { 4 });
+    let mut sd3 = seeds(if th { 5 } else { 4 });
+    sd3.retain(|(n, b)| !n.starts_with("node-") || b.len() <= if th { 900 } else { 220 });
     let f3: Acc = sd3.par_iter().with_max_len(1).map(|(n, b)| {
         let mut acc = Acc::new();
         for off in 0..b.len() {
